@@ -116,6 +116,12 @@ def int_vector_stores(fn):
             ip = match.index_parts(b[1])
             if ip and ir.ref_of(ip[0]) is not None and "vector" in (strip_casts(ip[0]).get("ty") or ""):
                 stores.setdefault(ir.ref_of(ip[0]), []).append(z)
+        # an element handed to a helper by address: helper(&vec[j])
+        if z["k"] == "UnaryOperator" and z.get("op") == "&":
+            ip = match.index_parts(kids(z)[0])
+            if ip and ir.ref_of(ip[0]) is not None and "vector" in (strip_casts(ip[0]).get("ty") or "") and \
+                    any(t in (strip_casts(ip[0]).get("ty") or "") for t in ("<long", "<int", "<unsigned", "<size_t", "<std::ptrdiff")):
+                stores.setdefault(ir.ref_of(ip[0]), []).append(z)
     return stores
 
 
@@ -181,6 +187,8 @@ class SlabEval:
             if e["k"] == "DeclRefExpr" and any(t in (e.get("ty") or "") for t in ("size_t", "unsigned long", "int", "long")) \
                     and "*" not in (e.get("ty") or "") and "iterator" not in (e.get("ty") or ""):
                 return 1         # number of sequences: one sequence carries the whole slab
+            if "callee" in e and e.get("member_call") and e["callee"]["name"] == "size" and len(kids(e)) == 1:
+                return 1         # likewise: seqs.size()
             return None
         env = {self.sizep: S}
         for d in self.outer:
